@@ -36,8 +36,8 @@ def gen_stmts(rng, depth, in_class=False):
         elif r < 0.4 and depth > 0:
             out.append(['class', rng.randrange(50), [rng.randrange(3) for _ in range(rng.choice([0, 0, 1]))], gen_stmts(rng, depth - 1, True)])
         elif r < 0.7:
-            t = rng.choice([['name', rng.randrange(9)], ['name', rng.randrange(9)], ['attr', rng.randrange(5), rng.randrange(5)],
-                            ['sub', rng.randrange(5), rng.randrange(5)]])
+            t = rng.choice([['name', rng.randrange(9)], ['name', rng.randrange(9)], ['attr', rng.randrange(10), rng.randrange(5)],
+                            ['sub', rng.randrange(10), rng.randrange(5)]])    # object tokens 5-9: composite expressions (c05_impl.OBJ_COMPOSITE)
             out.append(['ann', t, rng.randrange(6), rng.randrange(9) if rng.random() < 0.8 else None])
         elif r < 0.85 and depth > 0:
             kind = rng.randrange(5)
@@ -133,6 +133,20 @@ open(os.path.join(root, 'c05pkg', 'once.py'), 'w').write(
     'def ann():\n    COUNT["ann"] += 1\n    return int\n'
     'def val():\n    COUNT["val"] += 1\n    return 5\n'
     'obj().attr: ann() = val()\n')
+open(os.path.join(root, 'c05pkg', 'chain.py'), 'w').write(
+    'class O:\n    pass\n'
+    'a = O(); a.b = O(); a.l = [O()]\n'
+    'RESULT = {}\n'
+    'def attempt(key, thunk):\n'
+    '    try:\n        thunk(); RESULT[key] = "unchecked"\n'
+    '    except Exception as e:\n        RESULT[key] = type(e).__name__\n'
+    'def f_plain():\n    a.c: int = "bad"\n'
+    'def f_chain():\n    a.b.c: int = "bad"\n'
+    'def f_sub_attr():\n    a.l[0].c: int = "bad"\n'
+    'def f_call_attr():\n    (lambda: a)().c: int = "bad"\n'
+    'def f_chain_ok():\n    a.b.d: int = 3\n'
+    'for k_, t_ in (("plain", f_plain), ("chain", f_chain), ("sub_attr", f_sub_attr), ("call_attr", f_call_attr), ("chain_ok", f_chain_ok)):\n'
+    '    attempt(k_, t_)\n')
 sys.path.insert(0, root)
 from beartype.claw import beartype_package
 from beartype.roar import BeartypeClawDecorWarning, BeartypeDoorHintViolation, BeartypeCallHintViolation
@@ -167,6 +181,8 @@ with warnings.catch_warnings(record=True) as wl:
         out['sib'] = 'import failed: ' + type(e).__name__ + ': ' + str(e)[:200]
 import c05pkg.once as once
 out['once'] = once.COUNT
+import c05pkg.chain as chain
+out['chain'] = chain.RESULT
 print(json.dumps(out))
 '''
 
@@ -275,6 +291,14 @@ def run(ctx):
             if ctx.report({'clause': 'evaluated_more_than_once', 'obj': once.get('obj'), 'ann': once.get('ann')}, sc,
                           'an original expression of an annotated assignment is evaluated more than once under the hook') == 'violation':
                 failures += 1
+        chain = sc.get('chain') or {}
+        want = {'plain': 'BeartypeDoorHintViolation', 'chain': 'BeartypeDoorHintViolation', 'sub_attr': 'BeartypeDoorHintViolation',
+                'call_attr': 'BeartypeDoorHintViolation', 'chain_ok': 'unchecked'}
+        for k_ in sorted(want):
+            if chain.get(k_) != want[k_]:
+                if ctx.report({'clause': 'attribute_target_unchecked', 'target': k_}, sc,
+                              'an annotated attribute assignment whose object is not a plain name is not checked like the hand-written check') == 'violation':
+                    failures += 1
     if proof_err is not None and not failures:
         ctx.broken(f'{PROP} ({proof_err.what})', proof_err.log)
 
